@@ -159,6 +159,12 @@ class _Ev:
                 return self.ev(defs[0].value)
             if _is_counter(defs):
                 return A('cnt:' + e.id)
+            acc = _accumulator_step(defs)
+            if acc is not None:
+                # running total: starts at 0 and grows by a fixed amount per located array  ->  j * amount
+                step = self.ev(acc)
+                if step is not None and not any(str(a).startswith(('cnt:', 'len:')) for a in step.atoms()):
+                    return A('cnt:' + e.id) * step
             return None
         if isinstance(e, ast.Call) and U(e.func) == 'len' and len(e.args) == 1 and isinstance(e.args[0], ast.Name):
             return A('len:' + e.args[0].id)
@@ -187,10 +193,20 @@ def _is_counter(defs):
     return len(defs) == 2 and len(init) == 1 and len(incs) == 1
 
 
+def _accumulator_step(defs):
+    """`t = 0` once and `t += <expr>` once: the expression added, else None"""
+    init = [d for d in defs if isinstance(d, ast.Assign) and isinstance(d.value, ast.Constant) and d.value.value == 0
+            and not isinstance(d.value.value, bool)]
+    incs = [d for d in defs if isinstance(d, ast.AugAssign) and isinstance(d.op, ast.Add)]
+    if len(defs) == 2 and len(init) == 1 and len(incs) == 1:
+        return incs[0].value
+    return None
+
+
 def _counter_discipline(f, name, grant_stmt):
     """the counter is incremented once, after the offset is handed out, in the same block."""
     defs = _local_defs(f, name)
-    if not _is_counter(defs):
+    if not _is_counter(defs) and _accumulator_step(defs) is None:
         return '`%s` is not a counter (one `= 0`, one `+= 1`)' % name
     inc = [d for d in defs if isinstance(d, ast.AugAssign)][0]
     init = [d for d in defs if isinstance(d, ast.Assign)][0]
@@ -479,3 +495,24 @@ def count_expr_text(P):
                 if a.startswith('cnt:'):
                     return a[4:]
     return None
+
+
+def grant_counters(P):
+    """texts of expressions that count the located arrays in get_header_dict: len(<list>) for a list that is appended to
+    once in the block that hands out an offset, <counter> for a counter incremented by one there."""
+    ghd = P.func('headers.HeaderwordInfo.get_header_dict')
+    out = set()
+    for g in ast.walk(ghd.node):
+        if isinstance(g, ast.Call) and U(g.func).split('.')[-1] == 'FileOffset' and len(g.args) == 1:
+            st = enclosing_stmt(g)
+            blk = _block_of(st)
+            for x in blk[blk.index(st) + 1:] if st in blk else []:
+                if isinstance(x, ast.Expr) and isinstance(x.value, ast.Call) and isinstance(x.value.func, ast.Attribute) and \
+                        x.value.func.attr == 'append' and isinstance(x.value.func.value, ast.Name):
+                    nm = x.value.func.value.id
+                    if not isinstance(_list_discipline(ghd, nm, st), str) and not _list_discipline(ghd, nm, st):
+                        out.add('len(%s)' % nm)
+                if isinstance(x, ast.AugAssign) and isinstance(x.target, ast.Name) and _is_counter(_local_defs(ghd, x.target.id)):
+                    if not _counter_discipline(ghd, x.target.id, st):
+                        out.add(x.target.id)
+    return out
